@@ -123,6 +123,10 @@ type c04Tr struct {
 	files    []*ast.File
 	recvName string // receiver variable of the method being translated (methods of the same receiver can be inlined)
 	inlDepth int
+	// `return f(args)` that the vocabulary of the function gives a meaning of its own (checked before inlining)
+	tailCall func(t *c04Tr, env *c04Env, call *ast.CallExpr) (g string, ok bool, err error)
+	// slices allocated with make([]T, n) and then filled index by index: variable -> Gallina length
+	made map[string]string
 
 	inLoop  int
 	brk     []c04Cont
@@ -210,6 +214,28 @@ func (t *c04Tr) expr(env *c04Env, e ast.Expr) ([]string, string, error) {
 				}
 				return append(p1, p2...), "(" + a + " ++ [" + b + "])", nil
 			}
+		}
+	case *ast.BinaryExpr:
+		// natural-number arithmetic on lengths and indices (Go's int subtraction below zero has no
+		// counterpart: the only subtraction accepted is len(x) - literal, which Gallina truncates at 0
+		// exactly where Go's make([]T, -1) would panic; the translated functions document len >= literal)
+		if x.Op == token.ADD || x.Op == token.SUB {
+			if !c04Numeric(x.X, x.Y) {
+				break
+			}
+			p1, a, err := t.expr(env, x.X)
+			if err != nil {
+				return nil, "", err
+			}
+			p2, b, err := t.expr(env, x.Y)
+			if err != nil {
+				return nil, "", err
+			}
+			op := " + "
+			if x.Op == token.SUB {
+				op = " - "
+			}
+			return append(p1, p2...), "(" + a + op + b + ")", nil
 		}
 	case *ast.IndexExpr:
 		p1, a, err := t.expr(env, x.X)
@@ -666,9 +692,110 @@ func (t *c04Tr) stmts(env *c04Env, l []ast.Stmt, k c04Cont) (string, error) {
 				}
 			}
 		}
+		if g, ok, err := t.fillLoop(env, s, rest, k); ok || err != nil {
+			return g, err
+		}
 		return t.recvLoop(env, s, rest, k)
 	}
 	return "", t.errf("statement outside the translated fragment")
+}
+
+// x := make([]T, n) … for i := 0; i < len(x); i++ { …; x[i] = e }   (the last statement of the body fills
+// the slot; the statements before it may bind locals and leave the function with an error)
+//
+//	=  do x_ <- res_mapM (fun i_ => … Ok e) (seq 0 n); rest
+func (t *c04Tr) fillLoop(env *c04Env, s *ast.ForStmt, rest []ast.Stmt, k c04Cont) (string, bool, error) {
+	if s.Init == nil || s.Cond == nil || s.Post == nil || len(s.Body.List) == 0 {
+		return "", false, nil
+	}
+	init, ok := s.Init.(*ast.AssignStmt)
+	if !ok || init.Tok != token.DEFINE || len(init.Lhs) != 1 || len(init.Rhs) != 1 {
+		return "", false, nil
+	}
+	iv, ok := init.Lhs[0].(*ast.Ident)
+	if lit, isLit := init.Rhs[0].(*ast.BasicLit); !ok || !isLit || lit.Value != "0" {
+		return "", false, nil
+	}
+	post, ok := s.Post.(*ast.IncDecStmt)
+	if !ok || post.Tok != token.INC || !c04IsIdent(post.X, iv.Name) {
+		return "", false, nil
+	}
+	cond, ok := s.Cond.(*ast.BinaryExpr)
+	if !ok || cond.Op != token.LSS || !c04IsIdent(cond.X, iv.Name) {
+		return "", false, nil
+	}
+	lenCall, ok := cond.Y.(*ast.CallExpr)
+	if !ok || !c04IsIdent(lenCall.Fun, "len") || len(lenCall.Args) != 1 {
+		return "", false, nil
+	}
+	xv, ok := lenCall.Args[0].(*ast.Ident)
+	if !ok || t.made[xv.Name] == "" || !env.zero[xv.Name] {
+		return "", false, nil
+	}
+	last, ok := s.Body.List[len(s.Body.List)-1].(*ast.AssignStmt)
+	if !ok || last.Tok != token.ASSIGN || len(last.Lhs) != 1 || len(last.Rhs) != 1 {
+		return "", false, t.errf("the loop over %s does not end with %s[%s] = …", xv.Name, xv.Name, iv.Name)
+	}
+	slot, ok := last.Lhs[0].(*ast.IndexExpr)
+	if !ok || !c04IsIdent(slot.X, xv.Name) || !c04IsIdent(slot.Index, iv.Name) {
+		return "", false, t.errf("the loop over %s does not end with %s[%s] = …", xv.Name, xv.Name, iv.Name)
+	}
+	// nothing else in the body may touch x or i, or assign an outer variable
+	bad := false
+	for _, st := range s.Body.List[:len(s.Body.List)-1] {
+		ast.Inspect(st, func(n ast.Node) bool {
+			switch y := n.(type) {
+			case *ast.AssignStmt:
+				for _, l := range y.Lhs {
+					if id, ok := l.(*ast.Ident); ok {
+						if _, outer := env.vars[id.Name]; outer && y.Tok == token.ASSIGN {
+							bad = true
+						}
+						if id.Name == iv.Name {
+							bad = true
+						}
+					} else {
+						bad = true
+					}
+				}
+			case *ast.IncDecStmt:
+				bad = true
+			case *ast.Ident:
+				if y.Name == xv.Name {
+					bad = true
+				}
+			}
+			return true
+		})
+	}
+	if bad {
+		return "", false, t.errf("the loop over %s does more than fill it", xv.Name)
+	}
+	benv := env.clone()
+	ig := benv.bind(iv.Name)
+	t.inLoop++
+	t.brk = append(t.brk, nil)
+	t.cont = append(t.cont, nil)
+	body, err := t.stmts(benv, s.Body.List[:len(s.Body.List)-1], func(e *c04Env) (string, error) {
+		pre, g, err := t.expr(e, last.Rhs[0])
+		if err != nil {
+			return "", err
+		}
+		return c04Binds(pre, "Ok "+g), nil
+	})
+	t.inLoop--
+	t.brk = t.brk[:len(t.brk)-1]
+	t.cont = t.cont[:len(t.cont)-1]
+	if err != nil {
+		return "", false, err
+	}
+	aenv := env.clone()
+	xg := aenv.bind(xv.Name)
+	after, err := t.stmts(aenv, rest, k)
+	if err != nil {
+		return "", false, err
+	}
+	return fmt.Sprintf("do %s <- res_mapM (fun %s =>\n %s) (seq 0 %s);\n %s", xg, ig, body, t.made[xv.Name], after), true, nil
 }
 
 // switch { case c1: A; case c2: B; default: C }  =  if c1 { A } else if c2 { B } else { C };
@@ -759,6 +886,11 @@ func (t *c04Tr) inlineTail(env *c04Env, s *ast.ReturnStmt) (string, bool, error)
 	call, ok := s.Results[0].(*ast.CallExpr)
 	if !ok || call.Ellipsis.IsValid() {
 		return "", false, nil
+	}
+	if t.tailCall != nil {
+		if g, ok, err := t.tailCall(t, env, call); ok || err != nil {
+			return g, ok, err
+		}
 	}
 	var fd *ast.FuncDecl
 	fun := call.Fun
@@ -969,6 +1101,25 @@ func (t *c04Tr) assign(env *c04Env, as *ast.AssignStmt, rest []ast.Stmt, k c04Co
 	}
 	if len(as.Rhs) != 1 {
 		return "", t.errf("parallel assignment")
+	}
+	if len(names) == 1 && as.Tok == token.DEFINE && t.made != nil {
+		// x := make([]T, n): filled index by index by the loop that follows (fillLoop)
+		if call, ok := as.Rhs[0].(*ast.CallExpr); ok && c04IsIdent(call.Fun, "make") && len(call.Args) == 2 {
+			if _, isSlice := call.Args[0].(*ast.ArrayType); isSlice {
+				pre, g, err := t.expr(env, call.Args[1])
+				if err != nil {
+					return "", err
+				}
+				t.made[names[0]] = g
+				env.bind(names[0])
+				env.zero[names[0]] = true // n zero values: never read before the loop has filled them
+				body, err := t.stmts(env, rest, k)
+				if err != nil {
+					return "", err
+				}
+				return c04Binds(pre, body), nil
+			}
+		}
 	}
 	if len(names) == 1 && t.iterOf != nil && as.Tok == token.DEFINE {
 		// it := reflect.ValueOf(x).MapRange()
